@@ -66,7 +66,7 @@ def run_one(m, suite):
     mid, prop, path, old, new = m
     if old is None:
         return "%-28s %s SKIP (needs manual edit)" % (mid, prop), None
-    wt = "/tmp/mutrun-" + mid
+    wt = "/tmp/mutrun-%d-%s" % (os.getpid(), mid)
     sh("git -C %s worktree remove --force %s" % (REPO, wt))
     sh("git -C %s worktree add -q --detach %s HEAD" % (REPO, wt))
     try:
